@@ -33,7 +33,18 @@ def rule(tier):
 
 def prepare(ctx):
     bins = []
-    base = os.path.join(ctx.rundir, "bins")
+    # a fixed directory (not the per-process run directory): the paths end up inside the inputs (file paths in ABIXML, the
+    # compilation directory in DWARF) and the position-based mutations must hit the same bytes in every run
+    import fcntl
+    import shutil
+    from .. import build
+    fixed = os.path.join(build.WORK, "fixed", "C34-%s" % ctx.tier)
+    os.makedirs(fixed, exist_ok=True)
+    lock = open(os.path.join(fixed, ".lock"), "w")
+    fcntl.flock(lock, fcntl.LOCK_EX)        # released when the check's main process exits
+    ctx.shared["lock"] = lock
+    base = os.path.join(fixed, "bins")
+    shutil.rmtree(base, ignore_errors=True)
     seed = 700
     while len(bins) < NBINS:
         seed += 1
